@@ -61,7 +61,35 @@ def run_medium(case, ctx):
     ctx.outcome(("medium", a, b))
 
 
+def run_chain(case, ctx):
+    """Hundreds of long bars against their translate, the first diagram stored in a ROTATED order: the optimal
+    matching pairs every bar with its own copy (everything else is far more expensive), the matching routine
+    needs augmenting paths as long as the graph; the returned rows must still certify the distance."""
+    import persim
+
+    n, rot = case["n"], case["rot"]
+    X = [[float(i), float(i) + 1000.0] for i in range(n)]
+    Y = [[b + 0.6, d + 0.6] for b, d in X]
+    Xr = X[rot:] + X[:rot]
+    ctx.state(("chain", n, rot))
+    d0, _ = call_warn(ctx, persim.bottleneck, farr(Xr), farr(Y))
+    res, _ = call_warn(ctx, persim.bottleneck, farr(Xr), farr(Y), matching=True)
+    m = certify(ctx, "bottleneck", Xr, Y, d0, res, 1e-9, "chain of %d bars, first diagram rotated by %d" % (n, rot))
+    ctx.valid()
+    if not (is_num(d0) and abs(float(d0) - 0.6) <= 1e-9):
+        ctx.violation("bottleneck-aggregate", "bottleneck of a chain and its translate is not the size of the shift", observed=d0, expected=0.6)
+    if m is not None:
+        # every bar is paired with its own translate
+        wrong = [row.tolist() for row in np.asarray(m) if int(row[0]) >= 0 and int(row[1]) != (int(row[0]) + rot) % n]
+        if wrong:
+            ctx.violation("bottleneck-row-cost", "a row of the matching of a chain does not pair a bar with its own translate", observed=wrong[:3])
+    ctx.nontriv("chain_%d_bars_matching" % n)
+    ctx.outcome(("chain", n, rot))
+
+
 def cases(tier):
+    for n, rot in (((560, 187), (530, 1)) if tier == "quick" else ((560, 187), (530, 1), (900, 333))):
+        yield {"kind": "chain", "n": n, "rot": rot}
     mem = medium_members(tier)
     for x in range(len(mem)):
         for y in range(len(mem)):
@@ -142,6 +170,8 @@ def run_case(case, ctx):
 
     if case.get("kind") == "medium":
         return run_medium(case, ctx)
+    if case.get("kind") == "chain":
+        return run_chain(case, ctx)
     S, T = case["S"], case["T"]
     ctx.state((S, T))
     variants = [("base", S, T, 0.0, 1e-9)]
